@@ -661,7 +661,7 @@ func ruleSoleWriter(w *World, r *Run, rule string) {
 					}
 					st := parseSQL(text)
 					switch {
-					case st.err != "":
+					case st.err != "" && !sqlMutating[st.verb]:
 						r.Undecided(rule, key, w.pos(in.Pos()), "SQL tokenizer: "+st.err)
 					case sqlMutating[st.verb]:
 						ok := onTx && w.onlyReachableFrom(fn, setRoots[pSQL])
